@@ -1011,6 +1011,20 @@ Proof.
     split; [f_equal; exact IH1|exact IH2].
 Qed.
 
+Lemma take_drop_le_all :
+  forall recs number,
+    recs = take_le recs number ++ drop_le recs number
+    /\ Forall (fun rr => rr_number rr <= number) (take_le recs number)
+    /\ (forall rr rest, drop_le recs number = rr :: rest -> number < rr_number rr)
+    /\ (numbers_sorted recs ->
+          take_le recs number = filter (fun rr => rr_number rr <=? number) recs
+          /\ drop_le recs number = filter (fun rr => number <? rr_number rr) recs).
+Proof.
+  intros recs number. split; [apply take_drop_le|]. split; [apply take_le_all|].
+  split; [apply drop_le_head|apply take_le_filter].
+Qed.
+
+
 (* what the accumulator holds *)
 Definition last_entry_of (l : list ready_record) (d : N * N) : N * N :=
   fold_left (fun acc rr => match rr_last_entry rr with Some p => p | None => acc end) l d.
